@@ -57,10 +57,31 @@ def run_suite(wt):
     return rc, (tail[-1] if tail else out[-300:])
 
 
+_SNAP = None
+
+
+def snap():
+    """A frozen copy of the machinery, so that /verif/dst can be edited while
+    a verification is running."""
+    global _SNAP
+    if _SNAP is None:
+        import atexit
+        _SNAP = '/dev/shm/verif-snap-%d' % os.getpid()
+        shutil.rmtree(_SNAP, ignore_errors=True)
+        os.makedirs(_SNAP)
+        for f in ('run', 'known_findings.json'):
+            shutil.copy(os.path.join(VERIF, f), os.path.join(_SNAP, f))
+        for d in ('dst', 'findings'):
+            shutil.copytree(os.path.join(VERIF, d), os.path.join(_SNAP, d),
+                            ignore=shutil.ignore_patterns('__pycache__'))
+        atexit.register(shutil.rmtree, _SNAP, True)
+    return _SNAP
+
+
 def run_check(wt, prop, runs, tier=None):
     env = dict(os.environ)
     env['VERIF_REPO'] = wt
-    cmd = [os.path.join(VERIF, 'run'), 'check', prop, '--noevidence']
+    cmd = [os.path.join(snap(), 'run'), 'check', prop, '--noevidence']
     if runs:
         cmd += ['--runs', str(runs)]
     else:
